@@ -567,4 +567,134 @@ Qed.
 Lemma Inv_init : forall s, fresh_ok s -> s_cache s = [] -> Inv s.
 Proof. intros s Hf Hc. split; [exact Hf|]. intros k t v Hin. rewrite Hc in Hin. destruct Hin. Qed.
 
+
+(* ---- pot_fill ---------------------------------------------------------------------------------- *)
+Notation LocB := (LocB T surf P tr_empty inv sense).
+Notation Paths := (Paths T surf).
+Notation PathsL := (PathsL T surf).
+Notation fill_one := (fill_one T surf tr_empty teqb tr_surf).
+Notation pot_fill := (pot_fill T surf tr_empty teqb tr_surf).
+
+Lemma LocB_head : forall s du key p ch b, LocB s du key p ch b -> exists r, ch = key :: r.
+Proof. intros s du key p ch b H. destruct H; eauto. Qed.
+
+Lemma last_cons_ne : forall (k : Z) ch, ch <> [] -> last (k :: ch) 0 = last ch 0.
+Proof. intros k [|a r] H; [contradiction | reflexivity]. Qed.
+
+Lemma prov_cons_ne : forall (k : Z) ch, ch <> [] -> prov (k :: ch) = prov ch ++ [(last ch 0, k)].
+Proof. intros k [|a r] H; [contradiction | reflexivity]. Qed.
+
+Section Fill.
+Variable s0 : state.                    (* the table when FILL development starts *)
+Variable du : list (Z * list Z).
+Variable cf : nat.
+Variables ifd ifg : bool.
+(* original cells carry no provenance yet *)
+Hypothesis orig_empty : forall c cl, dget c (s_cells s0) = Some cl -> c_orig cl = [].
+(* the universe lists name existing cells *)
+Hypothesis du_closed : forall u c, In c (du_get u du) -> exists cl, dget c (s_cells s0) = Some cl.
+
+(* what pot_fill promises about the cell [k] it returns for the descent [ch] below [key] *)
+Definition GenOK (s : state) (key k : Z) (ch : list Z) : Prop :=
+  exists ncl lcl kcl r,
+    ch = key :: r /\
+    dget k (s_cells s) = Some ncl /\
+    dget (last ch 0) (s_cells s0) = Some lcl /\
+    dget key (s_cells s0) = Some kcl /\
+    c_fill ncl = None /\
+    c_orig ncl = prov ch /\
+    head_or (c_orig ncl) k = last ch 0 /\
+    c_mat ncl = c_mat lcl /\ c_rho ncl = c_rho lcl /\
+    c_imp ncl = c_imp kcl /\ c_univ ncl = c_univ kcl /\
+    ((r = [] /\ k = key) \/
+     (r <> [] /\ exists lft rgt, c_geom ncl = TNode true [lft; rgt] /\
+                  (lft = TRef key \/ lft = c_geom kcl))) /\
+    (forall p b, LocB s0 du key p ch b -> Den s p (TRef k) b).
+
+Lemma GenOK_mono : forall s s' key k ch, extends s s' -> GenOK s key k ch -> GenOK s' key k ch.
+Proof.
+  intros s s' key k ch Hx (ncl & lcl & kcl & r & H1 & H2 & H3 & H4 & H5 & H6 & H7 & H8 & H9 & H10 & H11 & H12 & H13).
+  exists ncl, lcl, kcl, r. repeat (split; [assumption|]).
+  split; [apply (proj1 Hx); exact H2|]. repeat (split; [assumption|]).
+  intros p b HL. apply (proj1 (Den_mono _ _ _ Hx)). apply H13. exact HL.
+Qed.
+
+Lemma head_or_app : forall (l : list (Z * Z)) x d d', l <> [] -> head_or (l ++ x) d = head_or l d'.
+Proof. intros [|[a b] r] x d d' H; [contradiction | reflexivity]. Qed.
+
+Lemma fill_one_spec : forall key cl u c e ch s k s',
+  dget key (s_cells s0) = Some cl -> c_fill cl = Some u -> In c (du_get u du) ->
+  extends s0 s -> Inv s -> GenOK s c e ch ->
+  fill_one cf ifd ifg key cl e s = Ok (k, s') ->
+  Inv s' /\ extends s s' /\ GenOK s' key k (key :: ch).
+Proof.
+  intros key cl u c e ch s k s' Hkey Hfill Hc Hx0 HI HG H.
+  destruct HG as (ecl & lcl & ccl & r & Hch & Hecl & Hlcl & Hccl & Hefill & Heorig & Hehead & Hemat & Herho & _ & _ & _ & HeD).
+  unfold Model.fill_one in H. rewrite Hecl in H.
+  destruct (place_filler cf cl e (negb ifg) s) as [[nek s1]|] eqn:Epf; [|discriminate].
+  destruct (place_filler_den _ _ _ _ _ _ _ HI Epf) as (HI1 & Hx1 & HD1).
+  set (rgtr := if ifg then match dget nek (s_cells s1) with
+                            | Some ncl => Ok (c_geom ncl) | None => Err EKey end
+               else Ok (TRef nek)) in H.
+  destruct rgtr as [rgt|] eqn:Ergt; [|discriminate].
+  set (lft := if ifd then c_geom cl else TRef key) in *.
+  set (orig := c_orig ecl ++ [(head_or (c_orig ecl) e, head_or (c_orig cl) key)]) in *.
+  set (ncell := mkCell (c_mat ecl) (c_rho ecl) (TNode true [lft; rgt]) (c_imp cl) (c_univ cl)
+                       None (c_filltr cl) (c_lat cl) (c_trcl cl) orig) in *.
+  change (mkSt (dset (s_nck s1 + 1) ncell (s_cells s1)) (s_surfs s1) (s_nck s1 + 1) (s_nsk s1)
+            (s_cache s1) (s_rcache s1)) with (add_cell s1 (s_nck s1 + 1) ncell) in H.
+  inversion H; subst k s'; clear H.
+  pose proof (add_cell_extends s1 ncell (proj1 HI1)) as Hx2.
+  pose proof (add_cell_inv s1 ncell HI1) as HI2.
+  set (s2 := add_cell s1 (s_nck s1 + 1) ncell) in *.
+  assert (Hxs : extends s s2) by (eapply extends_trans; eauto).
+  split; [exact HI2|]. split; [exact Hxs|].
+  assert (Hne : ch <> []) by (rewrite Hch; discriminate).
+  assert (Hoc : c_orig cl = []) by (eapply orig_empty; exact Hkey).
+  exists ncell, lcl, cl, ch.
+  split; [reflexivity|].
+  split; [unfold s2; cbn [add_cell s_cells]; apply dget_dset_same|].
+  split; [rewrite (last_cons_ne _ _ Hne); exact Hlcl|].
+  split; [exact Hkey|].
+  split; [reflexivity|].
+  assert (Horig : orig = prov ch ++ [(last ch 0, key)]).
+  { unfold orig. rewrite Heorig, Hoc. cbn [head_or]. rewrite <- Heorig, Hehead. reflexivity. }
+  split; [cbn [ncell c_orig]; rewrite (prov_cons_ne _ _ Hne); exact Horig|].
+  split.
+  { cbn [ncell c_orig]. rewrite (last_cons_ne _ _ Hne), Horig.
+    destruct (prov ch) as [|[a b] q] eqn:Ep; [reflexivity|].
+    rewrite <- Hehead, Heorig. rewrite ?Ep. reflexivity. }
+  split; [cbn [ncell c_mat]; exact Hemat|].
+  split; [cbn [ncell c_rho]; exact Herho|].
+  split; [reflexivity|]. split; [reflexivity|].
+  split.
+  { right. split; [exact Hne|]. exists lft, rgt. split; [reflexivity|].
+    unfold lft. destruct ifd; auto. }
+  intros p b HL.
+  eapply DRef; [unfold s2; cbn [add_cell s_cells]; apply dget_dset_same|].
+  cbn [ncell c_geom].
+  (* only the FILL rule can have produced a descent longer than one cell *)
+  inversion HL as [key' cl' p' b' Hk' Hf' HDk Ek Ep Echn Eb
+                  |key' cl' u' p' c' chain b1 b2 Hk' Hf' Hc' HD1' HL' Ek Ep Echn Eb].
+  { exfalso. apply Hne. symmetry. exact Echn. }
+  subst key' p' chain b. rewrite Hkey in Hk'. inversion Hk'; subst cl'.
+  destruct (LocB_head _ _ _ _ _ _ HL') as (r' & Hr'). rewrite Hr' in Hch. inversion Hch; subst c' r'.
+  assert (Dl : Den s2 p lft b1).
+  { assert (Dg : Den s2 p (c_geom cl) b1).
+    { apply (proj1 (Den_mono s0 s2 p (extends_trans _ _ _ Hx0 Hxs))). exact HD1'. }
+    unfold lft. destruct ifd; [exact Dg|].
+    eapply DRef; [|exact Dg]. apply (proj1 Hxs). apply (proj1 Hx0). exact Hkey. }
+  assert (Dr : Den s2 p rgt b2).
+  { assert (Dn : Den s1 p (TRef nek) b2) by (apply HD1; apply HeD; exact HL').
+    apply (proj1 (Den_mono _ _ _ Hx2)).
+    unfold rgtr in Ergt. destruct ifg.
+    - destruct (dget nek (s_cells s1)) as [ncl|] eqn:En; [|discriminate]. inversion Ergt; subst rgt.
+      destruct (Den_ref_inv _ _ _ _ Dn) as (ncl' & Hn' & Dn'). rewrite En in Hn'.
+      inversion Hn'; subst. exact Dn'.
+    - inversion Ergt; subst rgt. exact Dn. }
+  replace (b1 && b2) with (combine_op true [b1; b2]) by (cbn; rewrite andb_true_r; reflexivity).
+  apply DNode. apply DCons; [exact Dl|]. apply DCons; [exact Dr|]. apply DNil.
+Qed.
+
+End Fill.
 End Proofs.
